@@ -36,6 +36,8 @@ func runC10(c *Ctx) {
 	c.sizeRule("R10.5")
 	c.rule("R10.6", "no library mutex stays locked on any return path (a leaked lock wedges the connection for all later frames)")
 	c.lockLeakRule("R10.6")
+	c.rule("R10.10", "the reverse-call handler stored in the connection is a non-nil handler or the nil interface — never a nil pointer wrapped in the interface, which would pass the 'no handler' test and crash on the first inbound call")
+	c.noTypedNilHandler("R10.10")
 	c.rule("R10.9", "a completion is delivered at most once per in-flight entry (the entry is removed on every path after delivering): a peer repeating a response cannot fill the one-slot mailbox and block the frame executor")
 	c.inflightRemovalRule("R10.9")
 	c.deliveryRules("R10.9", "R10.9")
@@ -1086,6 +1088,14 @@ func (c *Ctx) sizeRule(rule string) {
 			if !ok || calleeName(call) != "io.LimitReader" {
 				return
 			}
+			// the limit on what a peer sends us as a request: the reader handed to the server-side entry
+			// (a parameter), not a response body the HTTP client chooses to read only partly
+			if c.dependsOn(call.Common().Args[0], func(v ssa.Value) bool {
+				f := loadedField(v)
+				return f != nil && f.Name() == "Body" && f.Pkg() != nil && f.Pkg().Path() == "net/http" && isNamed(derefType(v, f), "net/http", "Response")
+			}, 0, map[ssa.Value]bool{}) {
+				return
+			}
 			found = true
 			construct := fmt.Sprintf("%s: body size limit", fname(fn))
 			limF, c1, ok := fieldPlusConst(call.Common().Args[1])
@@ -1628,4 +1638,74 @@ func spilledFrom(res, v ssa.Value) bool {
 		}
 	}
 	return n > 0
+}
+
+// noTypedNilHandler: R10.10. The connection's dispatcher field is an interface; inbound calls are
+// refused when it is nil. A *handler variable that is only assigned when client handlers are
+// configured, stored into that field, makes the field a non-nil interface holding a nil pointer: the
+// guard passes and (*handler)(nil).handle panics on a bare goroutine — any server can then crash a
+// client that has no handlers by sending it one call. Every pointer converted into the dispatcher
+// interface must be non-nil on all origins.
+func (c *Ctx) noTypedNilHandler(rule string) {
+	p, r := c.P, c.R
+	if r.IDisp == nil {
+		c.und(rule, "dispatcher interface", "-", "not resolved")
+		return
+	}
+	n := 0
+	for _, fn := range p.Funcs {
+		if pkgOf(fn) != p.Root.Pkg {
+			continue
+		}
+		allInstrsRaw(fn, func(in ssa.Instruction) {
+			mi, ok := in.(*ssa.MakeInterface)
+			if !ok || mi.Type() != types.Type(r.IDisp) {
+				return
+			}
+			if _, isPtr := mi.X.Type().Underlying().(*types.Pointer); !isPtr {
+				return
+			}
+			n++
+			construct := fmt.Sprintf("%s: handler converted to the dispatcher interface", fname(fn))
+			maybeNil := false
+			for _, o := range c.origins(mi.X) {
+				if isNilConst(o.Root) && len(o.Fields) == 0 {
+					maybeNil = true
+				}
+			}
+			// a conversion that only happens where the pointer is known non-nil is fine
+			if maybeNil {
+				for _, cf := range expandConds(impliedConds(mi.Block())) {
+					if bo, ok := cf.Cond.(*ssa.BinOp); ok && (bo.Op == token.NEQ || bo.Op == token.EQL) && (isNilConst(bo.X) || isNilConst(bo.Y)) {
+						other := bo.X
+						if isNilConst(bo.X) {
+							other = bo.Y
+						}
+						if sameVal(other, mi.X) && (bo.Op == token.NEQ) == cf.True {
+							maybeNil = false
+						}
+					}
+				}
+			}
+			c.check(!maybeNil, rule, construct, c.ipos(mi), "non-nil on every origin", "a possibly nil *handler is wrapped into the dispatcher interface: the interface is then non-nil, the 'no handler configured' test passes, and the first inbound call dereferences the nil handler on a bare goroutine — the process dies")
+		})
+	}
+	if n == 0 {
+		c.ok(rule, "dispatcher interface conversions", "-", "none")
+	}
+}
+
+// derefType: the struct type whose field f the load v reads.
+func derefType(v ssa.Value, f *types.Var) types.Type {
+	if ld, ok := v.(*ssa.UnOp); ok {
+		if fa, ok := ld.X.(*ssa.FieldAddr); ok {
+			if pt, ok := fa.X.Type().Underlying().(*types.Pointer); ok {
+				return pt.Elem()
+			}
+		}
+	}
+	if fl, ok := v.(*ssa.Field); ok {
+		return fl.X.Type()
+	}
+	return types.Typ[types.Invalid]
 }
